@@ -98,6 +98,9 @@ def eval_atmos(row):
     return devs
 
 
+_work: dict = {}
+
+
 def eval_scope11(row):
     """specs/ei/Scope11.tla: the SCOPE11 mass index as a number, per smoke number x engine type x mode."""
     from AEIC.emissions.ei.pmnvol import calculate_PMnvolEI_scope11
@@ -105,12 +108,29 @@ def eval_scope11(row):
 
     sn = {m: float(v) for m, v in row['sn'].items()}
     devs = []
+    # Scope11.tla RecordForms: the smoke-number record is handed over as a new (frozen) object, or as ONE mutable working
+    # copy per process whose four entries are overwritten in place from record to record (a sweep) - the index is a
+    # function of what the record holds when it is handed over
+    working = int(round(sn['idle'] + 2 * sn['takeoff'] + sn['climb'])) % 2 == 1
+    if working:
+        from AEIC.performance.types import ThrustModeValues
+
+        if 'sn_work' not in _work:
+            _work['sn_work'] = ThrustModeValues(1.0, 1.0, 1.0, 1.0, mutable=True)
+        rec = _work['sn_work']
+        # (the step of the sweep before this one: the same record holding other numbers, evaluated for both engine types)
+        for m in ThrustMode:
+            rec[m] = sn[m.value] + 7.0
+        for eng in row['ei']:
+            calculate_PMnvolEI_scope11(rec, eng, 5.0)
+        for m in ThrustMode:
+            rec[m] = sn[m.value]
     for eng, per_mode in row['ei'].items():
-        prof = calculate_PMnvolEI_scope11(tmv(sn['idle'], sn['approach'], sn['climb'], sn['takeoff']), eng, 5.0)
+        prof = calculate_PMnvolEI_scope11(rec if working else tmv(sn['idle'], sn['approach'], sn['climb'], sn['takeoff']), eng, 5.0)
         for m in ThrustMode:
             got, want = float(prof[m]), per_mode[m.value] / 1e6
             if not (math.isfinite(got) and abs(got - want) <= ATM_TOL * max(abs(want), 1e-2)):
-                devs.append((f'scope11:value:{eng}', f'smoke numbers {sn}, {eng}, bypass ratio 5, {m.value}: index {got!r} g/kg; published equations (Scope11.tla): {want!r}'))
+                devs.append((f'scope11:value:{eng}', f'smoke numbers {sn}{" (one mutable record, overwritten in place from case to case)" if working else ""}, {eng}, bypass ratio 5, {m.value}: index {got!r} g/kg; published equations (Scope11.tla): {want!r}'))
     return devs
 
 
